@@ -1062,6 +1062,50 @@ pub proof fn lemma_early_eq(op: int, t1: SemType, t2: SemType)
     }
 }
 
+// ---------------------------------------------------------------- leaf constructors
+pub broadcast proof fn lemma_seq_one_contains<A>(x: A, y: A)
+    ensures #[trigger] seq![x].contains(y) == (x == y)
+{
+    if x == y { assert(seq![x][0] == y); }
+}
+// a type made of a single proper subtype and no full tag
+pub broadcast proof fn lemma_mem_single(t: SemType, v: Val)
+    requires t.all == 0, t.subtype_data@.len() == 1
+    ensures #[trigger] mem(t, v) == (ptag(*t.subtype_data@[0]) == tag_of(v) && mem_proper(*t.subtype_data@[0], v))
+{
+    lemma_bit_zero(code_of(tag_of(v)));
+    let d = t.subtype_data@;
+    if rtag(d[0]) == tag_of(v) && rmem(d[0], v) { assert(0 <= 0 < d.len() && rtag(d[0]) == tag_of(v) && rmem(d[0], v)); }
+    if in_seq(d, v) {
+        let i = choose|i: int| 0 <= i < d.len() && ptag(*#[trigger] d[i]) == tag_of(v) && mem_proper(*d[i], v);
+        assert(i == 0);
+    }
+}
+pub broadcast proof fn lemma_wf_single(t: SemType)
+    requires t.all == 0, t.subtype_data@.len() == 1, nontrivial_p(*t.subtype_data@[0])
+    ensures #[trigger] wf(t)
+{
+    lemma_val_in_val();
+    assert forall|i: int| 0 <= i < t.subtype_data@.len() implies !bit(t.all, pcode(#[trigger] t.subtype_data@[i])) && nontrivial_p(*t.subtype_data@[i]) by {
+        lemma_bit_zero(pcode(t.subtype_data@[i]));
+    }
+}
+// a type that is one full tag
+pub broadcast proof fn lemma_mem_basic(t: SemType, v: Val)
+    requires is_code(t.all), t.subtype_data@.len() == 0
+    ensures #[trigger] mem(t, v) == (code_of(tag_of(v)) == t.all)
+{
+    lemma_bit_self(t.all, code_of(tag_of(v)));
+}
+pub broadcast proof fn lemma_basic_wf(t: SemType)
+    requires is_code(t.all), t.subtype_data@.len() == 0
+    ensures #[trigger] wf(t), flat(t)
+{
+    bv_in_val(0u32, t.all);
+    assert((0u32 | t.all) == t.all) by (bit_vector);
+    lemma_val_in_val();
+}
+
 // ---------------------------------------------------------------- complement, emptiness, subtyping
 pub proof fn lemma_val()
     ensures VAL == 0x3ffeu32
